@@ -1,6 +1,11 @@
 import Proofs.C16.Basic
 import Proofs.C16.Gen
-import Proofs.C16.Small
+import Proofs.C16.Acc
+import Proofs.C16.Partition
+import Proofs.C16.Table
+import Proofs.C16.Shift
+import Proofs.C16.TableSound
+import Proofs.C16.T0
 /-!
 # C16 — the property-level statements proved from the lemmas of `Proofs/C16/*`
 -/
@@ -196,5 +201,53 @@ theorem partitions_disjoint {i j : Nat} (hij : i < j) {s : State} (hs : genUpTo 
   rw [List.getElem?_eq_getElem (by omega), Option.getD_some] at hta' htb'
   have := List.pairwise_iff_getElem.mp hpw i j (by omega) (by omega) hij
   exact this t hta' t htb' rfl
+
+/-- under the side condition the ranges `(prev, token]` of all items are pairwise disjoint; in
+particular no range contains the token of another item: `prev` is the ring predecessor. -/
+theorem ranges_exclusive {n z : Nat} (hz : z < 8) {s : State} (h : genUpTo z n = .ok s)
+    (hd : s.degenerate = false) :
+    (instItems s.instQ.toList).Pairwise (fun a b =>
+      arcDisj a b ∧ ¬ inArc a.prev a.token b.token ∧ ¬ inArc b.prev b.token a.token) := by
+  refine ((stateInv_genUpTo hz n s h).items.disj hd).imp ?_
+  intro a b hab
+  exact ⟨hab, fun hx => hab b.token ⟨hx, inArc_self _ _⟩, fun hx => hab a.token ⟨inArc_self _ _, hx⟩⟩
+
+/-! ### the finite table (kernel-evaluated in `Proofs/C16/T*.lean`) -/
+
+/-- number of the last instance covered by the kernel-evaluated table. -/
+def tableN : Nat := 6
+
+theorem finite_table {z n : Nat} (hz : z < 8) (hn : n ≤ tableN) :
+    ∃ s, genUpTo z n = .ok s ∧ s.degenerate = false ∧ SpreadOK s := by
+  obtain ⟨s0, _, hs, hd, hsp, _⟩ := all_zones_of_zone0 table_zone0 hz hn
+  exact ⟨shS z s0, hs, hd, hsp⟩
+
+/-- the kernel-checked part of the zone-0 run never generates `maxTokenValue`, hence every zone's
+tokens for ids `0..tableN` are the zone-0 tokens shifted by the zone index. -/
+theorem finite_table_shift {z n : Nat} (hz : z < 8) (hn : n ≤ tableN) :
+    ∃ m0, tokensByInstanceID n 0 = .ok m0 ∧
+      tokensByInstanceID n z = .ok (m0.map (fun l => l.map (· + z))) := by
+  obtain ⟨s0, h0, hs, _, _, _⟩ := all_zones_of_zone0 table_zone0 hz hn
+  refine ⟨s0.toks, ?_, ?_⟩
+  · unfold tokensByInstanceID; rw [h0]; rfl
+  · unfold tokensByInstanceID; rw [hs]; rfl
+
+/-- zones are translations of zone 0 (all `n`): if the zone-0 run for instance `n` never generates
+the token `maxTokenValue = 2^32 - 8`, the run for zone `z < 8` yields the same tokens shifted by `z`. -/
+theorem zone_translation {z n : Nat} (hz : z < 8) {m0 : List (List Nat)}
+    (h0 : tokensByInstanceID n 0 = .ok m0) (habs : maxTokenValue ∉ m0.flatten) :
+    tokensByInstanceID n z = .ok (m0.map (fun l => l.map (· + z))) := by
+  obtain ⟨s0, hs0, rfl⟩ := tokens_ok h0
+  unfold tokensByInstanceID
+  rw [genUpTo_sh hz n s0 hs0 habs]
+  rfl
+
+theorem small_of_table (z : Nat) (hz : z < 8) : (genUpTo z 1).map (·.degenerate) = .ok false := by
+  obtain ⟨s, hs, hd, _⟩ := finite_table (n := 1) hz (by decide)
+  rw [hs]; simp [Except.map, hd]
+
+theorem small_z0 : (genUpTo 0 1).map (·.degenerate) = .ok false := small_of_table 0 (by decide)
+theorem small_z3 : (genUpTo 3 1).map (·.degenerate) = .ok false := small_of_table 3 (by decide)
+theorem small_z7 : (genUpTo 7 1).map (·.degenerate) = .ok false := small_of_table 7 (by decide)
 
 end PfC16
